@@ -36,6 +36,9 @@ CMP_SWAP = {ast.Lt: ast.LtE, ast.LtE: ast.Lt, ast.Gt: ast.GtE, ast.GtE: ast.Gt, 
             ast.Is: ast.IsNot, ast.IsNot: ast.Is}
 
 
+AOR = {ast.Add: ast.Sub, ast.Sub: ast.Add, ast.Mult: ast.FloorDiv, ast.Mod: ast.FloorDiv, ast.FloorDiv: ast.Mod}
+
+
 def _is_doc(stmt):
     return isinstance(stmt, ast.Expr) and isinstance(stmt.value, ast.Constant) and isinstance(stmt.value.value, str)
 
@@ -108,6 +111,14 @@ def candidates(tree):
             yield "CONST", i, None, ln, f"{n.value} -> {not n.value}"
         if isinstance(n, ast.BoolOp):
             yield "BOOL", i, None, ln, f"`{ast.unparse(n)[:60]}`: and <-> or"
+        if isinstance(n, ast.BinOp) and type(n.op) in AOR:
+            yield "AOR", i, None, ln, f"`{ast.unparse(n)[:60]}`: {type(n.op).__name__} -> {AOR[type(n.op)].__name__}"
+        if isinstance(n, ast.AugAssign) and type(n.op) in AOR:
+            yield "AOR", i, None, ln, f"`{ast.unparse(n)[:60]}`: {type(n.op).__name__} -> {AOR[type(n.op)].__name__}"
+        if isinstance(n, ast.UnaryOp) and isinstance(n.op, ast.Not):
+            yield "NOTDROP", i, None, ln, f"`{ast.unparse(n)[:60]}`: drop `not`"
+        if isinstance(n, ast.Return) and n.value is not None and not (isinstance(n.value, ast.Constant) and n.value.value is None):
+            yield "RETNONE", i, None, ln, f"`{ast.unparse(n)[:60]}` -> return None"
         if isinstance(n, ast.Call):
             for k, kw in enumerate(n.keywords):
                 if kw.arg == "scheduler":
@@ -162,6 +173,17 @@ def apply(src, op, idx, extra):
         n.op = ast.Or() if isinstance(n.op, ast.And) else ast.And()
     elif op == "KWDROP":
         del n.keywords[extra]
+    elif op == "AOR":
+        n.op = AOR[type(n.op)]()
+    elif op == "NOTDROP":
+        p = parents[id(n)]
+        for f, v in ast.iter_fields(p):
+            if v is n:
+                setattr(p, f, n.operand)
+            elif isinstance(v, list) and n in v:
+                v[v.index(n)] = n.operand
+    elif op == "RETNONE":
+        n.value = ast.Constant(value=None)
     elif op == "VARSWAP":
         n.id = extra
     elif op == "ARGSWAP":
